@@ -70,7 +70,7 @@ def applyOp (d : DS) (o : Op Nat Nat Nat) : DS := { d with st := stepOp d.st o }
 /-! routes of the outage matrix: (name printed by the harness, handler function) -/
 def mutatingRoutes : List (String × String) :=
   [("u2fRegResp", "u2fRegisterResponse"), ("u2fRegReq", "u2fRegisterRequest"),
-   ("genTOTP", "GenerateNewTOTP"), ("valTOTP", "validateNewTOTP"), ("mgTOTP", "totpTokenManagerHandler"),
+   ("valTOTP", "validateNewTOTP"), ("genTOTP", "GenerateNewTOTP"), ("mgTOTP", "totpTokenManagerHandler"),
    ("waRegBegin", "webauthnBeginRegistration"), ("waRegFinish", "webauthnFinishRegistration"),
    ("mgU2F", "u2fTokenManagerHandler"), ("bootstrapAuth", "BootstrapOtpAuthHandler"),
    ("addUser", "addUserHandler"), ("genBootstrap", "generateBootstrapOTP")]
@@ -90,20 +90,32 @@ def effectToken (c : GuardClass) (writable : Bool) : String :=
   | .wroteFresh => "ok"
   | .wroteStale => "ok"
 
-def outage (d : DS) (mode : String) (u pid : Nat) : DS × String :=
-  let d1 : DS := { d with seenU := u :: d.seenU }
-  let d2 := applyOp (applyOp d1 (.save u pid)) (.sync ⟨false, false⟩ none)
+/-- the outage matrix; `pidNew = some n`: the primary is ahead of the cache (u changed to n and
+user 1000+u created after the last synchronisation) -/
+def outage (d : DS) (mode : String) (u pid : Nat) (pidNew : Option Nat) : DS × String :=
+  let d1 : DS := { d with seenU := u :: (1000 + u) :: d.seenU }
+  let d2a := applyOp (applyOp d1 (.save u pid)) (.sync ⟨false, false⟩ none)
+  let d2 := match pidNew with
+    | some n => applyOp (applyOp d2a (.save u n)) (.save (1000 + u) n)
+    | none => d2a
   if mode == "up" then (d2, s!"ok sanity | {digest d2}")
   else
     let writable := mode != "down"
-    let auth := (if hasTOTP pid then ["authTOTP=ok"] else []) ++
+    let auth := ["login=ok"] ++ (if hasTOTP pid then ["authTOTP=ok"] else []) ++
       (if hasU2F pid then ["u2fSignReq=ok", "waAuthBegin=ok", "waAuthFinish=ok"] else [])
-    let muts := mutatingRoutes.map fun r => s!"{r.1}={effectToken (classOf r.2) writable}"
+    -- addUserHandler answers 400 "User exists" before its fromCache test when the (cached) row exists
+    let addExists := (d2.st.cache.users (1000 + u)).isSome
+    let muts := mutatingRoutes.map fun r =>
+      if r.1 == "addUser" && addExists then "addUser=400" else s!"{r.1}={effectToken (classOf r.2) writable}"
+    -- writes hidden behind routes that keep answering: login (self-service bootstrap OTP),
+    -- TOTP verification (counter), WebAuthn assertion (counter)
+    let hidden := ["trySelfServiceGenerateBootstrapOTP"] ++
+      (if hasTOTP pid then ["validateUserTOTP"] else []) ++ (if hasU2F pid then ["webauthnAuthFinish"] else [])
     let stale := (mutatingRoutes.any fun r => handlerEffect (classOf r.2) true writable == .wroteStale) ||
-      (hasU2F pid && handlerEffect (classOf "webauthnAuthFinish") true writable == .wroteStale)
+      (hidden.any fun f => handlerEffect (classOf f) true writable == .wroteStale)
     let del := effectToken (classOf "deleteUserHandler") writable
     let d3 := if del == "ok" then applyOp d2 (.delete u) else d2
-    (d3, s!"ok unchanged={boolStr (!stale)} {" ".intercalate (auth ++ muts)} deleteUser={del} | {digest d2} | {digest d3}")
+    (d3, s!"ok unchanged={boolStr (!stale)} mails=0 {" ".intercalate (auth ++ muts)} deleteUser={del} | {digest d2} | {digest d3}")
 
 def stale (d : DS) (mode : String) (u old new : Nat) : DS × String :=
   if !hasU2F old || !(mode == "t0" || mode == "slow" || mode == "down") then (d, "bad-op")
@@ -161,9 +173,15 @@ def model (d : DS) : List String → DS × String
   | ["outage", mode, u, pid] =>
     match u.toNat?, pid.toNat? with
     | some u, some pid =>
-      if mode == "up" || mode == "t0" || mode == "slow" || mode == "down" then outage d mode u pid
+      if mode == "up" || mode == "t0" || mode == "slow" || mode == "down" then outage d mode u pid none
       else (d, "bad-op")
     | _, _ => (d, "bad-op")
+  | ["ostale", mode, u, o, n] =>
+    match u.toNat?, o.toNat?, n.toNat? with
+    | some u, some o, some n =>
+      if mode == "up" || mode == "t0" || mode == "slow" || mode == "down" then outage d mode u o (some n)
+      else (d, "bad-op")
+    | _, _, _ => (d, "bad-op")
   | ["flap", route, u, pid] =>
     match u.toNat?, pid.toNat? with
     | some u, some pid =>
@@ -225,17 +243,22 @@ def judge : List String → String
     match v.splitOn "/" with
     | [a, b] => if a == b && a.toNat?.isSome then "ok" else "viol cached-profile-differs"
     | _ => "bad-op"
-  | "outage" :: mode :: unchanged :: toks =>
+  | "outage" :: mode :: unchanged :: mails :: toks =>
+    -- `c15_outage_readonly` on what the handlers did: every profile-changing route refused (the
+    -- direct delete failed or, primary reachable, done), logins and second factor checks answered,
+    -- both row sets unchanged, no side effect (no bootstrap OTP mailed)
     if !(mode == "t0" || mode == "slow" || mode == "down") then "bad-op" else
     let bad := toks.filter fun t =>
       match t.splitOn "=" with
       | [name, v] =>
         if name == "deleteUser" then !(v == "failed" || (mode != "down" && v == "ok"))
+        else if name == "addUser" then !(v == "refused" || v == "400")
         else if (mutatingRoutes.map (·.1)).contains name then v != "refused"
-        else if ["authTOTP", "u2fSignReq", "waAuthBegin", "waAuthFinish"].contains name then v != "ok"
+        else if ["login", "authTOTP", "u2fSignReq", "waAuthBegin", "waAuthFinish"].contains name then v != "ok"
         else true
       | _ => true
     if unchanged != "unchanged=1" then "viol rows-changed-during-outage"
+    else if mails != "mails=0" then s!"viol side-effect-during-outage {mails}"
     else if bad.isEmpty then "ok" else s!"viol {" ".intercalate bad}"
   | "flap" :: toks =>
     -- primary lost at the k-th statement of a request: the row is the old one unless the handler
